@@ -350,7 +350,6 @@ func runC11(c *Ctx, r *Rec) {
 			return true
 		})
 	}
-	r.floor("D3-context-arms", 1)
 
 	// ---- D4 conversions
 	checkConversionErrors(c, r, info, pms)
@@ -388,7 +387,6 @@ func runC11(c *Ctx, r *Rec) {
 			return true
 		})
 	}
-	r.floor("D4-conversion-width", 1)
 
 	// ---- D5 separation
 	goStmts := ""
@@ -590,5 +588,4 @@ func checkConversionErrors(c *Ctx, r *Rec, info *types.Info, pms map[string]*ast
 		})
 	}
 	r.count("conversion call sites", n)
-	r.floor("D4-conversion-errors", 1)
 }
